@@ -115,6 +115,15 @@ class Builder:
             self.fwds[k] <<= self.build(g)
         return r
 
+    def fresh(self, g):
+        """a private object graph for g (nothing shared with other uses), for the API calls that mutate in place"""
+        saved, self.memo = self.memo, {}
+        old_share, self.share = self.share, False
+        try:
+            return self.build(g)
+        finally:
+            self.memo, self.share = saved, old_share
+
     def build(self, g):
         mutating = g[0] in ("act", "leavews", "ignore", "setws", "keeptabs", "setname")
         if self.share and not mutating and g in self.memo:
@@ -207,16 +216,16 @@ class Builder:
         if k == "namestar": return B(g[2])(g[1] + "*")
         if k == "copy": return B(g[1]).copy()
         if k == "act":
-            e = B(g[2]).copy()
+            e = self.fresh(g[2])
             f, sx, is_cond, kw = make_action(g[1])
             if is_cond:
                 e.add_condition(f, **kw)
             else:
                 e.add_parse_action(f)
             return e
-        if k == "leavews": return B(g[1]).copy().leave_whitespace()
-        if k == "ignore": return B(g[1]).copy().ignore(B(g[2]))
-        if k == "setws": return B(g[2]).copy().set_whitespace_chars(g[1])
-        if k == "keeptabs": return B(g[1]).copy().parse_with_tabs()
-        if k == "setname": return B(g[2]).copy().set_name(g[1])
+        if k == "leavews": return self.fresh(g[1]).leave_whitespace()
+        if k == "ignore": return self.fresh(g[1]).ignore(B(g[2]))
+        if k == "setws": return self.fresh(g[2]).set_whitespace_chars(g[1])
+        if k == "keeptabs": return self.fresh(g[1]).parse_with_tabs()
+        if k == "setname": return self.fresh(g[2]).set_name(g[1])
         raise Unbuildable("surface form %r" % (k,))
